@@ -147,14 +147,19 @@ Lemma Bal_join : forall s, Bal [Join s].
 Proof. intros s h b H. simpl in H. apply andb_prop in H. apply H. Qed.
 
 (* ------------------------------------------------------------ the step function *)
+Section GenStep.
+(** everything up to [no_deadlock_g] holds for every enabledness test that lets a free lock be taken *)
+Variable en : state -> nat -> action -> bool.
+Hypothesis en_perm : forall s i a, enabled s a = true -> en s i a = true.
+
 Definition newt (a : action) (t : thread) (p : list action) : thread :=
   {| started := true; held := local a (held t); code := p |}.
 
 Lemma step_spec : forall s i s',
-  step s i = Some s' ->
+  gstep en s i = Some s' ->
   exists t a p,
     nth_error (threads s) i = Some t /\ started t = true /\ code t = a :: p /\
-    enabled s a = true /\
+    en s i a = true /\
     jslot s' = match a with Spawn sl u => (sl, u) :: jslot s | _ => jslot s end /\
     forall j, nth_error (threads s') j =
       match nth_error (threads s) j with
@@ -164,11 +169,11 @@ Lemma step_spec : forall s i s',
           Some (match a with Spawn _ u => if Nat.eqb j u then mark t1 else t1 | _ => t1 end)
       end.
 Proof.
-  intros s i s' H. unfold step in H.
+  intros s i s' H. unfold gstep in H.
   destruct (nth_error (threads s) i) as [t|] eqn:Ei; [|discriminate].
   destruct (started t) eqn:Est; [|discriminate].
   destruct (code t) as [|a p] eqn:Ec; [discriminate|].
-  destruct (enabled s a) eqn:Een; [|discriminate].
+  destruct (en s i a) eqn:Een; [|discriminate].
   inversion H; subst s'; clear H. exists t, a, p.
   repeat split; try assumption; try reflexivity.
   intro j. simpl.
@@ -187,9 +192,9 @@ Qed.
 
 Lemma step_enabled : forall s j t a q,
   nth_error (threads s) j = Some t -> started t = true -> code t = a :: q ->
-  enabled s a = true -> exists s', step s j = Some s'.
+  enabled s a = true -> exists s', gstep en s j = Some s'.
 Proof.
-  intros s j t a q Hn Hs Hc He. unfold step. rewrite Hn, Hs, Hc, He. eexists. reflexivity.
+  intros s j t a q Hn Hs Hc He. unfold gstep. rewrite Hn, Hs, Hc, (en_perm _ _ _ He). eexists. reflexivity.
 Qed.
 
 (* ------------------------------------------------------------ the invariant *)
@@ -277,7 +282,7 @@ Proof.
     intro Heq. subst u. rewrite Nat.eqb_refl in Eu. discriminate.
 Qed.
 
-Lemma Inv_step : forall s i s', step s i = Some s' -> Inv s -> Inv s'.
+Lemma Inv_step : forall s i s', gstep en s i = Some s' -> Inv s -> Inv s'.
 Proof.
   intros s i s' Hstep HI.
   destruct (step_spec _ _ _ Hstep) as (t & a & p & Hi & Hst & Hc & Hen & Hjs & Hall).
@@ -326,7 +331,7 @@ Proof.
     exists tu'. auto.
 Qed.
 
-Lemma Inv_reachable : forall ths s, WF ths -> reachable (init ths) s -> Inv s.
+Lemma Inv_reachable : forall ths s, WF ths -> greachable en (init ths) s -> Inv s.
 Proof.
   intros ths s HW HR. induction HR as [|s i s' _ IH Hs].
   - apply Inv_init. exact HW.
@@ -350,7 +355,7 @@ Qed.
 Lemma progress_acq : forall n s, Inv s ->
   forall i t r p, nth_error (threads s) i = Some t -> started t = true -> code t = Acq r :: p ->
   rank_bound <= rank r + n ->
-  exists j s', step s j = Some s'.
+  exists j s', gstep en s j = Some s'.
 Proof.
   induction n as [|n IH]; intros s HI i t r p Hi Hst Hc Hrk.
   - pose proof (rank_lt_bound r). lia.
@@ -389,10 +394,10 @@ Proof.
         eapply (IH s HI u tu r'' q'); eauto. lia.
 Qed.
 
-Theorem no_deadlock : forall ths s,
-  WF ths -> reachable (init ths) s ->
+Theorem no_deadlock_g : forall ths s,
+  WF ths -> greachable en (init ths) s ->
   (exists i t, nth_error (threads s) i = Some t /\ unfinished t = true) ->
-  exists j s', step s j = Some s'.
+  exists j s', gstep en s j = Some s'.
 Proof.
   intros ths s HW HR (i & t & Hi & Hun).
   pose proof (Inv_reachable ths s HW HR) as HI.
@@ -413,6 +418,35 @@ Proof.
       try discriminate;
       try (exists u; eapply step_enabled; eauto; reflexivity).
     eapply (progress_acq rank_bound s HI u tu r'' q'); eauto. lia.
+Qed.
+
+End GenStep.
+
+Lemma en_excl_perm : forall s i a, enabled s a = true -> en_excl s i a = true.
+Proof. intros s i a H. exact H. Qed.
+
+Lemma reachable_greachable : forall s0 s, reachable s0 s -> greachable en_excl s0 s.
+Proof.
+  intros s0 s H. induction H as [|s i s' _ IH Hs].
+  - apply greach_refl.
+  - eapply greach_step; [exact IH|exact Hs].
+Qed.
+
+Theorem no_deadlock : forall ths s,
+  WF ths -> reachable (init ths) s ->
+  (exists i t, nth_error (threads s) i = Some t /\ unfinished t = true) ->
+  exists j s', step s j = Some s'.
+Proof.
+  intros ths s HW HR HU.
+  exact (no_deadlock_g en_excl en_excl_perm ths s HW (reachable_greachable _ _ HR) HU).
+Qed.
+
+(** shared readers are an instance: a free lock can be taken *)
+Lemma en_shared_perm : forall reader s i a, enabled s a = true -> en_shared reader s i a = true.
+Proof.
+  intros reader s i a H. unfold en_shared.
+  destruct a as [r|r|r|k|k|sl u|sl|tag]; try exact H.
+  destruct r; try exact H. rewrite H. reflexivity.
 Qed.
 
 (* ------------------------------------------------------------ class level -> instances *)
@@ -502,7 +536,7 @@ Proof.
     + rewrite forallb_forall in H2. specialize (H2 i).
       destruct (step s i); [|reflexivity].
       assert (false = true); [|discriminate]. apply H2. apply in_seq. lia.
-    + unfold step. apply nth_error_None in Hge. rewrite Hge. reflexivity.
+    + unfold step, gstep. apply nth_error_None in Hge. rewrite Hge. reflexivity.
 Qed.
 
 Definition fp_enable_first : list caction := [CAcq CSlot; CSpawn; CRel CSlot].
@@ -1036,3 +1070,347 @@ Definition stop_protocol_ok (tbl : list (String.string * list caction)) (body : 
 
 Theorem generated_stop_protocol : stop_protocol_ok all_footprints ticker_body = true.
 Proof. vm_compute. reflexivity. Qed.
+
+(* ------------------------------------------------------------ structured programs: soundness of [check] *)
+Section cprog_induction.
+  Variable P : cprog -> Prop.
+  Hypothesis HA : forall a, P (PAct a).
+  Hypothesis HS : forall l, Forall P l -> P (PSeq l).
+  Hypothesis HB : forall l, Forall P l -> P (PBranch l).
+  Hypothesis HL : forall b, P b -> P (PLoop b).
+  Hypothesis HE : forall c, P c -> P (PExit c).
+  Fixpoint cprog_ind' (p : cprog) : P p :=
+    match p with
+    | PAct a => HA a
+    | PSeq l => HS l ((fix go (l : list cprog) : Forall P l :=
+                         match l with
+                         | [] => Forall_nil P
+                         | q :: r => Forall_cons q (cprog_ind' q) (go r)
+                         end) l)
+    | PBranch l => HB l ((fix go (l : list cprog) : Forall P l :=
+                            match l with
+                            | [] => Forall_nil P
+                            | q :: r => Forall_cons q (cprog_ind' q) (go r)
+                            end) l)
+    | PLoop b => HL b (cprog_ind' b)
+    | PExit c => HE c (cprog_ind' c)
+    end.
+End cprog_induction.
+
+Lemma cres_eqb_eq : forall x y, cres_eqb x y = true -> x = y.
+Proof. destruct x, y; simpl; intro H; try discriminate; reflexivity. Qed.
+
+Lemma cres_eqb_refl : forall x, cres_eqb x x = true.
+Proof. destruct x; reflexivity. Qed.
+
+Lemma hl_eqb_eq : forall x y, hl_eqb x y = true -> x = y.
+Proof.
+  unfold hl_eqb. induction x as [|a x IH]; destruct y as [|b y]; simpl; intro H; try discriminate.
+  - reflexivity.
+  - apply andb_prop in H. destruct H as [H1 H2]. apply cres_eqb_eq in H1. subst b.
+    rewrite (IH y H2). reflexivity.
+Qed.
+
+Lemma hmem_In : forall h hs, hmem h hs = true -> In h hs.
+Proof.
+  intros h hs H. unfold hmem in H. apply existsb_exists in H. destruct H as (x & Hin & He).
+  apply hl_eqb_eq in He. subst x. exact Hin.
+Qed.
+
+Lemma In_hdedup : forall x hs, In x hs -> In x (hdedup hs).
+Proof.
+  induction hs as [|y r IH]; intro H; [contradiction|]. simpl.
+  destruct (hmem y r) eqn:E.
+  - destruct H as [->|H]; [apply IH; apply hmem_In; exact E|apply IH; exact H].
+  - destruct H as [->|H]; [left; reflexivity|right; apply IH; exact H].
+Qed.
+
+Lemma crun_app : forall t1 h t2,
+  crun h (t1 ++ t2) = match crun h t1 with Some h' => crun h' t2 | None => None end.
+Proof.
+  induction t1 as [|a t1 IH]; intros h t2; simpl; [reflexivity|].
+  destruct (cstep a h); [apply IH|reflexivity].
+Qed.
+
+Lemma crun_cordered : forall tr h, crun h tr = Some [] -> cordered_from h tr = true.
+Proof.
+  induction tr as [|a tr IH]; intros h H; simpl in H.
+  - injection H as ->. reflexivity.
+  - destruct (cstep a h) as [h'|] eqn:E; [|discriminate].
+    destruct a as [c|c|c| | | | | | | | ]; simpl in E |- *;
+      try (injection E as <-; apply IH; exact H).
+    + destruct (forallb (fun x => crank x <? crank c) h); [|discriminate].
+      injection E as <-. simpl. apply IH. exact H.
+    + destruct (existsb (cres_eqb c) h); [|discriminate].
+      injection E as <-. simpl. apply IH. exact H.
+    + destruct h as [|x [|y h]]; try discriminate.
+      destruct (cres_eqb x c); [|discriminate]. injection E as <-. simpl. apply IH. exact H.
+    + destruct (forallb (fun x => crank x <? join_rank) h); [|discriminate].
+      injection E as <-. simpl. apply IH. exact H.
+Qed.
+
+Lemma step_all_sound : forall a hs o, step_all a hs = Some o ->
+  forall h, In h hs -> exists h', cstep a h = Some h' /\ In h' o.
+Proof.
+  induction hs as [|x r IH]; intros o H h Hin; [contradiction|].
+  simpl in H. destruct (cstep a x) as [x'|] eqn:E1; [|discriminate].
+  destruct (step_all a r) as [o'|] eqn:E2; [|discriminate]. injection H as <-.
+  destruct Hin as [->|Hin].
+  - exists x'. split; [exact E1|left; reflexivity].
+  - destruct (IH o' eq_refl h Hin) as (h' & H1 & H2). exists h'. split; [exact H1|right; exact H2].
+Qed.
+
+(** soundness of the abstract interpretation: from any entry held list in [hs], every path of [p]
+    runs without violating the discipline and ends in a held list of the computed set *)
+Theorem check_sound : forall p hs outs, check p hs = Some outs ->
+  forall h tr, In h hs -> paths p tr -> exists h', crun h tr = Some h' /\ In h' outs.
+Proof.
+  induction p as [a|l IHl|alts IHa|b IHb|c IHc] using cprog_ind'; intros hs outs H h tr Hin Hp.
+  - (* PAct *)
+    inversion Hp; subst. simpl in H.
+    destruct (step_all a hs) as [o|] eqn:E; [|discriminate]. simpl in H. injection H as <-.
+    destruct (step_all_sound a hs o E h Hin) as (h' & H1 & H2).
+    exists h'. split; [simpl; rewrite H1; reflexivity|apply In_hdedup; exact H2].
+  - (* PSeq *)
+    inversion Hp as [|l0 trs HF| | |]; subst. clear Hp. simpl in H.
+    revert IHl hs outs H h Hin.
+    induction HF as [|q t l' trs' Hq HF' IH2]; intros IHl hs outs H h Hin.
+    + injection H as <-. exists h. split; [reflexivity|exact Hin].
+    + destruct (check q hs) as [hs1|] eqn:E; [|discriminate].
+      inversion IHl as [|? ? IHq IHl']; subst.
+      destruct (IHq hs hs1 E h t Hin Hq) as (h1 & R1 & In1).
+      destruct (IH2 IHl' hs1 outs H h1 In1) as (h2 & R2 & In2).
+      exists h2. split; [|exact In2]. simpl. rewrite crun_app, R1. exact R2.
+  - (* PBranch *)
+    inversion Hp as [| |alts0 p tr0 Hpin Hpp| |]; subst. clear Hp. simpl in H.
+    match type of H with option_map _ ?X = _ => destruct X as [o|] eqn:G end; [|discriminate].
+    simpl in H. injection H as <-.
+    assert (Hex : exists h', crun h tr = Some h' /\ In h' o).
+    { revert o G. induction alts as [|q r IHr]; intros o G; [contradiction|].
+      destruct (check q hs) as [oa|] eqn:E1; [|discriminate].
+      match type of G with match ?X with _ => _ end = _ => destruct X as [ob|] eqn:E2 end; [|discriminate].
+      injection G as <-. inversion IHa as [|? ? IHq IHr']; subst.
+      destruct Hpin as [->|Hpin].
+      - destruct (IHq hs oa E1 h tr Hin Hpp) as (h' & R & I). exists h'. split; [exact R|].
+        apply in_or_app. left. exact I.
+      - destruct (IHr IHr' Hpin ob eq_refl) as (h' & R & I). exists h'. split; [exact R|].
+        apply in_or_app. right. exact I. }
+    destruct Hex as (h' & R & I). exists h'. split; [exact R|apply In_hdedup; exact I].
+  - (* PLoop *)
+    inversion Hp as [| | |b0 trs HF|]; subst. clear Hp. simpl in H.
+    destruct (check b hs) as [hs'|] eqn:E; [|discriminate].
+    destruct (forallb (fun h0 => hmem h0 hs) hs') eqn:F; [|discriminate]. injection H as <-.
+    revert h Hin. induction HF as [|t trs' Ht HF' IH2]; intros h Hin.
+    + exists h. split; [reflexivity|exact Hin].
+    + destruct (IHb hs hs' E h t Hin Ht) as (h1 & R1 & In1).
+      rewrite forallb_forall in F. pose proof (hmem_In _ _ (F h1 In1)) as In1'.
+      destruct (IH2 h1 In1') as (h2 & R2 & In2).
+      exists h2. split; [|exact In2]. simpl. rewrite crun_app, R1. exact R2.
+  - (* PExit *)
+    inversion Hp; subst. simpl in H. eapply IHc; eassumption.
+Qed.
+
+Theorem prog_ordered_sound : forall p, prog_ordered p = true ->
+  forall tr, paths p tr -> cordered tr = true.
+Proof.
+  intros p H tr Hp. unfold prog_ordered in H.
+  destruct (check p [[]]) as [outs|] eqn:E; [|discriminate].
+  destruct (check_sound p [[]] outs E [] tr (or_introl eq_refl) Hp) as (h' & R & I).
+  rewrite forallb_forall in H. specialize (H h' I). destruct h'; [|discriminate].
+  unfold cordered. apply crun_cordered. exact R.
+Qed.
+
+(** paths only use actions that occur in the program *)
+Lemma In_pactions_list : forall (f : cprog -> list caction) l q a,
+  In q l -> In a (f q) ->
+  In a ((fix go (l : list cprog) := match l with [] => [] | q :: r => f q ++ go r end) l).
+Proof.
+  induction l as [|x r IH]; intros q a Hq Ha; [contradiction|].
+  apply in_or_app. destruct Hq as [->|Hq]; [left; exact Ha|right; eapply IH; eassumption].
+Qed.
+
+Lemma paths_actions : forall p tr, paths p tr -> forall a, In a tr -> In a (pactions p).
+Proof.
+  induction p as [a0|l IHl|alts IHa|b IHb|c IHc] using cprog_ind'; intros tr Hp a Ha.
+  - inversion Hp; subst. exact Ha.
+  - inversion Hp as [|l0 trs HF| | |]; subst. clear Hp. simpl.
+    revert IHl Ha. induction HF as [|q t l' trs' Hq HF' IH2]; intros IHl Ha; [contradiction|].
+    inversion IHl as [|? ? IHq IHl']; subst. simpl in Ha. apply in_app_or in Ha.
+    apply in_or_app. destruct Ha as [Ha|Ha]; [left; eapply IHq; eassumption|right; apply IH2; assumption].
+  - inversion Hp as [| |alts0 p tr0 Hpin Hpp| |]; subst. clear Hp. simpl.
+    rewrite Forall_forall in IHa.
+    apply (In_pactions_list pactions alts p a Hpin). eapply IHa; eassumption.
+  - inversion Hp as [| | |b0 trs HF|]; subst. clear Hp. simpl.
+    induction HF as [|t trs' Ht HF' IH2]; [contradiction|].
+    simpl in Ha. apply in_app_or in Ha. destruct Ha as [Ha|Ha]; [eapply IHb; eassumption|apply IH2; exact Ha].
+  - inversion Hp; subst. simpl. eapply IHc; eassumption.
+Qed.
+
+Theorem prog_worker_sound : forall p, prog_worker p = true ->
+  forall tr, paths p tr -> cworker_ok tr = true.
+Proof.
+  intros p H tr Hp. unfold prog_worker in H. unfold cworker_ok.
+  rewrite forallb_forall in *. intros a Ha. apply H. eapply paths_actions; eassumption.
+Qed.
+
+(* ------------------------------------------------------------ the generated programs *)
+Lemma generated_programs_ordered :
+  forallb (fun np : String.string * cprog => prog_ordered (snd np)) all_programs = true.
+Proof. vm_compute. reflexivity. Qed.
+
+(** the two generated tables agree: the textual-order linearisation of every structured program is
+    the flat footprint of the same name *)
+Lemma generated_tables_agree :
+  map (fun np : String.string * cprog => (fst np, linear (snd np))) all_programs = all_footprints.
+Proof. vm_compute. reflexivity. Qed.
+
+Lemma generated_ticker_prog :
+  In ("TickerControl::run"%string, ticker_prog) all_programs /\
+  prog_worker ticker_prog = true /\ prog_ordered ticker_prog = true /\
+  exists body, ticker_prog = PLoop body /\ linear body = ticker_body.
+Proof.
+  split; [vm_compute; tauto|]. split; [vm_compute; reflexivity|]. split; [vm_compute; reflexivity|].
+  eexists. split; [reflexivity|vm_compute; reflexivity].
+Qed.
+
+Theorem all_paths_ordered : forall name p, In (name, p) all_programs ->
+  forall tr, paths p tr ->
+  cordered tr = true /\ forall b m k, Ordered (map (inst b m k) tr).
+Proof.
+  intros name p Hin tr Hp.
+  pose proof generated_programs_ordered as H. rewrite forallb_forall in H.
+  specialize (H _ Hin). simpl in H.
+  pose proof (prog_ordered_sound p H tr Hp) as Hc.
+  split; [exact Hc|]. intros b m k. apply cordered_inst. exact Hc.
+Qed.
+
+Theorem ticker_paths_worker : forall tr, paths ticker_prog tr ->
+  forall b m k, Ordered (map (inst b m k) tr) /\ worker_ok (map (inst b m k) tr) = true.
+Proof.
+  intros tr Hp b m k. destruct generated_ticker_prog as (Hin & Hw & _).
+  split.
+  - apply (proj2 (all_paths_ordered _ _ Hin tr Hp)).
+  - apply cworker_inst. eapply prog_worker_sound; eassumption.
+Qed.
+
+Lemma WFp_WF : forall ths, WFp all_programs ths -> WF ths.
+Proof.
+  intros ths [H1 H2]. split; [|exact H2].
+  rewrite Forall_forall in *. intros t Hin. destruct (H1 t Hin) as [Hh (segs & Hc & Hs)].
+  split; [exact Hh|]. exists (map seg_code segs). split; [exact Hc|].
+  rewrite Forall_forall in *. intros fp Hfp. apply in_map_iff in Hfp.
+  destruct Hfp as (sg & <- & Hsg). specialize (Hs sg Hsg).
+  destruct sg as [[p [[b m] k]] tr]. simpl in *. destruct Hs as [(name & Hn) Hp].
+  apply (proj2 (all_paths_ordered name p Hn tr Hp)).
+Qed.
+
+(** no deadlock, stated over PATHS of the generated programs, for every lock implementation in which
+    a free lock can be taken ([en]; exclusive locks, shared readers, ...) *)
+Theorem no_deadlock_paths_g : forall en,
+  (forall s i a, enabled s a = true -> en s i a = true) ->
+  forall ths s, WFp all_programs ths -> greachable en (init ths) s ->
+  (exists i t, nth_error (threads s) i = Some t /\ unfinished t = true) ->
+  exists j s', gstep en s j = Some s'.
+Proof.
+  intros en Hen ths s HW HR HU. eapply no_deadlock_g; eauto. apply WFp_WF. exact HW.
+Qed.
+
+Theorem no_deadlock_paths : forall ths s,
+  WFp all_programs ths -> reachable (init ths) s ->
+  (exists i t, nth_error (threads s) i = Some t /\ unfinished t = true) ->
+  exists j s', step s j = Some s'.
+Proof.
+  intros ths s HW HR HU. apply (no_deadlock ths s (WFp_WF ths HW) HR HU).
+Qed.
+
+Theorem no_deadlock_shared_reads : forall reader ths s,
+  WFp all_programs ths -> greachable (en_shared reader) (init ths) s ->
+  (exists i t, nth_error (threads s) i = Some t /\ unfinished t = true) ->
+  exists j s', gstep (en_shared reader) s j = Some s'.
+Proof. intros reader. apply no_deadlock_paths_g. apply en_shared_perm. Qed.
+
+(** shared readers really are more permissive: two readers hold the same Multi lock, which the
+    exclusive semantics never allows - and the state is still covered by the theorem *)
+Definition rd_pool : list thread :=
+  [ uthread [Acq (Multi 0); Rel (Multi 0)]; uthread [Acq (Multi 0); Rel (Multi 0)] ].
+Lemma shared_readers_example :
+  exists s1 s2, gstep (en_shared (fun _ => true)) (init rd_pool) 0 = Some s1 /\
+                gstep (en_shared (fun _ => true)) s1 1 = Some s2 /\
+                step s1 1 = None /\
+                forallb (fun t => holds t (Multi 0)) (threads s2) = true.
+Proof. eexists. eexists. repeat split; vm_compute; reflexivity. Qed.
+
+(** a path of a generated program *)
+Definition is_finished_name : String.string := "ProgressBar::is_finished"%string.
+Lemma paths_example :
+  exists p, In (is_finished_name, p) all_programs /\
+            paths p [CAcq CBar; CRel CBar].
+Proof.
+  eexists. split; [vm_compute; tauto|].
+  change [CAcq CBar; CRel CBar] with (List.concat [[CAcq CBar]; [CRel CBar]]).
+  apply pa_seq. repeat constructor.
+Qed.
+
+(* ------------------------------------------------------------ erasing a lock class *)
+Lemma hfilter_cremove1_same : forall c h, hfilter c (cremove1 c h) = hfilter c h.
+Proof.
+  induction h as [|x h IH]; simpl; [reflexivity|].
+  destruct (cres_eqb x c) eqn:E; simpl; [reflexivity|]. rewrite E. simpl. rewrite IH. reflexivity.
+Qed.
+
+Lemma hfilter_cremove1_other : forall c r h, cres_eqb r c = false ->
+  hfilter c (cremove1 r h) = cremove1 r (hfilter c h).
+Proof.
+  intros c r h Hrc. induction h as [|x h IH]; simpl; [reflexivity|].
+  destruct (cres_eqb x r) eqn:Exr.
+  - apply cres_eqb_eq in Exr. subst x. rewrite Hrc. simpl. rewrite cres_eqb_refl. reflexivity.
+  - simpl. destruct (cres_eqb x c) eqn:Exc; simpl; [exact IH|]. rewrite Exr, IH. reflexivity.
+Qed.
+
+Lemma forallb_hfilter : forall (f : cres -> bool) c h, forallb f h = true -> forallb f (hfilter c h) = true.
+Proof.
+  intros f c h. induction h as [|x h IH]; simpl; intro H; [reflexivity|].
+  apply andb_prop in H. destruct H as [H1 H2].
+  destruct (cres_eqb x c); simpl; [apply IH; exact H2|rewrite H1; apply IH; exact H2].
+Qed.
+
+Lemma existsb_hfilter : forall c r h, cres_eqb r c = false ->
+  existsb (cres_eqb r) h = true -> existsb (cres_eqb r) (hfilter c h) = true.
+Proof.
+  intros c r h Hrc. induction h as [|x h IH]; simpl; intro H; [discriminate|].
+  destruct (cres_eqb r x) eqn:E.
+  - apply cres_eqb_eq in E. subst x. rewrite Hrc. simpl. rewrite cres_eqb_refl. reflexivity.
+  - simpl in H. destruct (cres_eqb x c); simpl; [apply IH; exact H|rewrite E; apply IH; exact H].
+Qed.
+
+(** erasing a lock class preserves the discipline (e.g. the paths of a bar that is not a member of a
+    MultiProgress are the paths of the generated programs with [CMulti] erased) *)
+Theorem cordered_erase : forall c tr h,
+  cordered_from h tr = true -> cordered_from (hfilter c h) (cerase c tr) = true.
+Proof.
+  intros c. induction tr as [|a tr IH]; intros h H.
+  - simpl in *. destruct h; [reflexivity|discriminate].
+  - destruct a as [r|r|r| | | | | | | | ]; simpl in H |- *; try (apply IH; exact H).
+    + apply andb_prop in H. destruct H as [H1 H2]. specialize (IH _ H2). simpl in IH.
+      destruct (cres_eqb r c) eqn:E; simpl in IH |- *.
+      * exact IH.
+      * rewrite (forallb_hfilter _ c h H1). exact IH.
+    + apply andb_prop in H. destruct H as [H1 H2]. specialize (IH _ H2).
+      destruct (cres_eqb r c) eqn:E.
+      * apply cres_eqb_eq in E. subst r. rewrite hfilter_cremove1_same in IH. exact IH.
+      * simpl. rewrite (existsb_hfilter c r h E H1). rewrite <- hfilter_cremove1_other by exact E. exact IH.
+    + destruct h as [|x [|y h]]; try discriminate.
+      apply andb_prop in H. destruct H as [H1 H2]. apply cres_eqb_eq in H1. subst x.
+      specialize (IH _ H2). simpl in IH.
+      destruct (cres_eqb r c) eqn:E; simpl; [rewrite E; simpl; exact IH|].
+      rewrite E. simpl. rewrite cres_eqb_refl. exact IH.
+    + apply andb_prop in H. destruct H as [H1 H2].
+      rewrite (forallb_hfilter _ c h H1). apply IH. exact H2.
+Qed.
+
+Theorem all_paths_erased_ordered : forall name p, In (name, p) all_programs ->
+  forall tr, paths p tr -> forall c, cordered (cerase c tr) = true.
+Proof.
+  intros name p Hin tr Hp c. destruct (all_paths_ordered name p Hin tr Hp) as [Hc _].
+  exact (cordered_erase c tr [] Hc).
+Qed.
